@@ -12,6 +12,7 @@ Three oracles (DESIGN.md section 4, C08):
        P 1 = 0 and u^T P u = kappa |g|^2 V sum(x) for a linear field.
 """
 import itertools
+import threading
 import numpy as np
 import scipy.sparse as sps
 from pmc.refs import fe
@@ -314,23 +315,28 @@ def _options_sweep(ctx, pym, cls, dom, grid, ndof, elmat_of, base_kw, tab, bcs, 
                 for mname in mtypes:
                     if _only(case, mtype=mname):
                         continue
+                    Cobj, Cd = constant(cname, n)
+                    kw = dict(base_kw)
+                    if bc is not None:
+                        kw['bc'] = bc.copy()
+                    if dv is not None:
+                        kw['bcdiagval'] = dv
+                    if cname != 'none':
+                        kw['add_constant'] = Cobj
+                    if not (mname == 'csc_matrix' and cname == 'none'):
+                        kw['matrix_type'] = MTYPES[mname]  # csc is also exercised as the constructor default
+                    # one fresh module per option point; x is then updated on its input signal (the normal use)
+                    sig = pym.Signal('x', x_vector(xs[0], nel, tab))
+                    m = cls(sig, domain=dom, **kw)
                     for xname in xs:
                         if _only(case, x=xname):
                             continue
                         axes = {'bc': bcname, 'diag': dname, 'const': cname, 'mtype': mname, 'x': xname,
                                 'phase': 'options'}
                         xv = x_vector(xname, nel, tab)
-                        Cobj, Cd = constant(cname, n)
-                        kw = dict(base_kw)
-                        if bc is not None:
-                            kw['bc'] = bc.copy()
-                        if dv is not None:
-                            kw['bcdiagval'] = dv
-                        if cname != 'none':
-                            kw['add_constant'] = Cobj
-                        if mname != 'csc_matrix' or xname == 'coded':
-                            kw['matrix_type'] = MTYPES[mname]  # csc is also exercised as the default
-                        m, got = _assemble(pym, cls, dom, xv, **kw)
+                        sig.state = xv.copy()
+                        m.response()
+                        got = m.sig_out[0].state
                         ctx.ntrans += 1
                         ctx.nstates += 1
                         if Ke is None:
@@ -405,6 +411,29 @@ def _finish(ctx, case, kind, nel, dim, axes_values, key):
 # ------------------------------------------------------------------------------------------------ execute
 
 def execute(case):
+    return _in_thread(_execute, case)
+
+
+def _in_thread(fn, *args):
+    """pyMOTO builds a debugging string with inspect.stack() in every Signal/Module constructor; its cost grows with
+    the depth of the call stack (runner + multiprocessing + runpy frames: ~3 ms per object).  Running the case on a
+    fresh thread gives it a short stack; nothing else changes.  Exceptions are re-raised with their traceback."""
+    box = {}
+
+    def run():
+        try:
+            box['r'] = fn(*args)
+        except BaseException as e:  # noqa
+            box['e'] = e
+    th = threading.Thread(target=run, daemon=True)
+    th.start()
+    th.join()
+    if 'e' in box:
+        raise box['e']
+    return box['r']
+
+
+def _execute(case):
     import pymoto as pym
     kind = case['kind']
     grid = tuple(case['grid'])
